@@ -45,3 +45,11 @@ Theorem C17_covers_in_order : forall w w' g' r cs,
   b_row (w_bot w') = if length r <? length (b_opening_row (w_bot w))
                      then r ++ skipn (length r) (b_opening_row (w_bot w)) else r.
 Proof. exact covers_in_order. Qed.
+
+(* the surplus bells are exactly the tail of the tower's opening row, which extends the generator's own
+   start row: covers ring in order behind the method *)
+Theorem C17_opening_row_extends_start_row : forall stage n custom sr op,
+  stage <= n ->
+  generate_starting_row stage custom = Ok sr -> generate_starting_row n custom = Ok op ->
+  exists extra, op = sr ++ extra.
+Proof. exact opening_row_extends_start_row. Qed.
